@@ -363,7 +363,10 @@ def stepStress (scriptS planS impl : String) : String :=
       let want := match p.toNat? with
         | some k => if k ≤ pre.length then s!"P{k}" else full
         | none => full
-      if sq == want then none else some s!"a clone observed {sq}, the underlying sequence allows only {want}"
+      if sq == want then none
+      else if term != "D" && !((sq.splitOn ",").contains term) && p.toNat?.isNone then
+        some s!"shared-iterator stale fetch: a clone never got the underlying iterator's error {term} (it observed {sq}, the underlying sequence allows only {want}) — fetchMore ran again after the error had been recorded"
+      else some s!"a clone observed {sq}, the underlying sequence allows only {want}"
     match bad with
     | w :: _ => specViol w
     | [] =>
@@ -382,6 +385,7 @@ def step (c impl : String) : String :=
   | ["ad", adapter, param, scripts, ops] => stepAdapter adapter param scripts ops impl
   | ["sh", _, script, acts] => stepShared script acts impl
   | ["shs", script, plan] => stepStress script plan impl
+  | ["shr", script, plan, _] => stepStress script plan impl
   | _ => "SKIP unknown-case"
 
 def main : IO Unit := Proto.run step
